@@ -187,6 +187,8 @@ def run(ctx):
                                        "(roots %s, parameters %s)" % (name, sorted(rr), sorted(ar)), where_of(c))
     ctx.rule("C10-maxmin-contagion", "max/min return the promoted operand (inexact if any argument is inexact)")
     d_mm = numtables.rule_maxmin(ctx, "C10-operator-table", "C10-maxmin-contagion")
+    # ... and with the comparisons answered from values given to the operands (ties in every position; `partial_cmp` as well as < >)
+    numtables.rule_maxmin_values(ctx, "C10-operator-table", "C10-maxmin-contagion")
     numtables.rule_maxmin_grid(ctx, "C10-operator-table")
     ctx.guarded('C10-maxmin-contagion', d_mm >= 8, _old_maxmin)
 
